@@ -84,6 +84,10 @@ def run_history(case):
     for c in case['calls']:
         log = []
         cb = (lambda m, log=log: log.append([m.type, m.text])) if c.get('cb') else None
+        if c.get('cb') == 'raise':
+            def cb(m, log=log):   # an application callback that throws (as the repository's own test callback does)
+                log.append([m.type, m.text])
+                raise RuntimeError('callback abort')
         o = rimu.RenderOptions(safeMode=pyval(c.get('safeMode')),
                                htmlReplacement=pyval(c.get('htmlReplacement')),
                                reset=pyval(c.get('reset')), callback=cb)
@@ -102,7 +106,8 @@ def run_history(case):
             if isinstance(e, (KeyboardInterrupt, SystemExit)):
                 raise
             out['calls'].append({'status': 'raise', 'exn': exn_kind(e), 'msg': str(e)[:200]})
-            break
+            if not case.get('continue_after_raise'):
+                break
     if case.get('state'):
         try:
             out['state'] = snapshot()
